@@ -75,26 +75,40 @@ class Dom(JsonDomain):
         return {'dict': isdict, 'list': islist, 'float': isfloat}[ty](t)
 
     def comprehension(self, eng, e, st):
-        # {k: f(v) for (k, v) in d.items()}  /  [f(i) for i in d]  with f the function under verification: the map of f over the container
-        fn = eng.frames[0].fi.name if eng.frames and eng.frames[0].fi else None
+        """{k: E(v) for (k, v) in d.items()}  /  [E(i) for i in d]:  the element expression is evaluated at a GENERIC element el of the container (any term) and must
+        equal rn(el) — the function's own contract at the smaller argument (induction hypothesis, measure: term size); the comprehension is then the map MAPRN(d)."""
         try:
             g = e.generators[0]
             if len(e.generators) != 1 or g.ifs:
                 return UNK
             if isinstance(e, ast.DictComp) and isinstance(g.target, ast.Tuple) and isinstance(g.iter, ast.Call) and \
-                    isinstance(g.iter.func, ast.Attribute) and g.iter.func.attr == 'items' and not g.iter.args:
+                    isinstance(g.iter.func, ast.Attribute) and g.iter.func.attr == 'items' and not g.iter.args and \
+                    all(isinstance(x, ast.Name) for x in g.target.elts) and len(g.target.elts) == 2:
                 kv, vv = g.target.elts[0].id, g.target.elts[1].id
-                src = eng.ev(g.iter.func.value, st)
-                if isinstance(e.key, ast.Name) and e.key.id == kv and isinstance(e.value, ast.Call) and isinstance(e.value.func, ast.Name) \
-                        and e.value.func.id == fn and len(e.value.args) == 1 and isinstance(e.value.args[0], ast.Name) and e.value.args[0].id == vv:
-                    t = tt(src)
-                    return MAPRN(t) if t is not None else UNK
-            if isinstance(e, ast.ListComp) and isinstance(g.target, ast.Name):
-                src = eng.ev(g.iter, st)
-                if isinstance(e.elt, ast.Call) and isinstance(e.elt.func, ast.Name) and e.elt.func.id == fn and len(e.elt.args) == 1 \
-                        and isinstance(e.elt.args[0], ast.Name) and e.elt.args[0].id == g.target.id:
-                    t = tt(src)
-                    return MAPRN(t) if t is not None else UNK
+                if not (isinstance(e.key, ast.Name) and e.key.id == kv):
+                    return UNK
+                src, elt = eng.ev(g.iter.func.value, st), e.value
+            elif isinstance(e, ast.ListComp) and isinstance(g.target, ast.Name):
+                vv, src, elt = g.target.id, eng.ev(g.iter, st), e.elt
+            else:
+                return UNK
+            t = tt(src)
+            if t is None:
+                return UNK
+            el = z3.Const(fresh_name('el'), T)
+            saved = st.env.get(vv, None)
+            st.env[vv] = el
+            st.assume(U['rn'](el) == z3.If(z3.Or(isdict(el), islist(el)), MAPRN(el), z3.If(z3.And(isfloat(el), t_isnan(el)), TNONE, el)))
+            v = tt(eng.ev(elt, st))
+            if saved is None:
+                st.env.pop(vv, None)
+            else:
+                st.env[vv] = saved
+            if v is None:
+                return UNK
+            eng.oblige(st, v == U['rn'](el), 'assert', 'every element of the container, nested containers included, is mapped by the function itself (generic element)',
+                       ['C20'], e.lineno, site='comprehension@%d' % (1 if isinstance(e, ast.DictComp) else 2))
+            return MAPRN(t)
         except Exception:
             pass
         return UNK
